@@ -51,7 +51,7 @@ ASSUMPTIONS = [
 EXHAUSTIVE = {"quick": False, "thorough": False}
 FINDING_CLASSES = dict(T.FINDING_KEYS)
 META = {
-    "level_text": "proof (partial): analysis soundness for all IR programs + single-channel theorem over all executions of the regenerated IR, guarded by 16 finding site classes; implicit runtime exceptions and termination by correspondence only",
+    "level_text": "proof (partial): analysis soundness for all IR programs + single-channel theorem over all executions of the regenerated IR, guarded by 22 finding site classes; implicit runtime exceptions and termination by correspondence only",
     "level_note": (
         "Proved in Coq: (1) C03_analysis_sound — for every exception-flow IR program, table passing the executable post-fixpoint "
         "check, mode and function, every raise site that an execution of the nondeterministic big-step semantics lets escape is in "
@@ -130,20 +130,22 @@ OPTS = {
     "basic": ["a", "s", "f", "b", "l", "d", "n.x", "n.y.z", "o", "any", "u", "e", "pos", "cfg"],
     "classes": ["cal", "ocal", "t", "c", "lcal", "dcal", "a", "cfg"],
     "dataclass": ["dc", "odc", "ldc", "ddc", "out", "a", "cfg"],
-    "subcommands": ["a", "cfg", "fit.p", "fit.cal", "fit.cfg", "test.q", "test.name"],
-    "plain": ["pt", "it", "ch", "m", "flag", "cnt", "a", "cfg"],
+    "subcommands": ["a", "cfg", "fit.p", "fit.cal", "fit.cfg", "test.q", "test.name", "subcommand", "fit", "test"],
+    "plain": ["pt", "it", "ch", "m", "mc", "mq", "ms", "flag", "cnt", "a", "cfg"],
     "paths": ["p", "lp", "op", "inner", "inner.v", "inner.w.k", "a", "cfg"],
 }
 SUBKEYS = ["class_path", "init_args", "init_args.firstweekday", "firstweekday", "dict_kwargs.k", "help", "x", "y", "inner.x", "k",
            "init_args.", "zz", "0", "a.b"]
 IMPORT_PATHS = ["calendar.Calendar", "calendar.TextCalendar", "calendar.HTMLCalendar", "TextCalendar", "os.path", "nomod.X", "calendar.Nope",
                 "Nope", "calendar.", ".calendar", "calendar..Calendar", "calendar.Calendar.itermonthdates", "math.inf", "calendar.January",
-                "json.JSONDecoder", "calendar.nomod.X", "5", "", "calendar.isleap", "a b.c"]
+                "json.JSONDecoder", "calendar.nomod.X", "5", "", "calendar.isleap", "a b.c",
+                # modules that exist but whose import fails with a plain ImportError (platform guard / optional dependency)
+                "asyncio.windows_events.ProactorEventLoop", "encodings.mbcs.StreamWriter", "c03_needs_extra.Thing", "c03_needs_extra"]
 SCALARS = ["1", "0", "-3", "2.5", "x", "", "null", "true", "1e999", "1_0", "0x1f", "é", "a b", "~", "[]", "{}", "ok", "red", "y", "-", "--", "=", "1e3"]
 BROKEN = ["[1,", "{a: ", "\"", "a: b: c", "!!python/object:os.system x", "&x [*x]", "a: &x [*x]", "*undefined", "- &a [*a]", "{a: &x {b: *x}}",
           "? [a]\n: 1", "a\x00b", "{1: 2}", "[[[[[[[[[[1]]]]]]]]]]", "!!binary x", "@", "`", "%YAML 9.9", "---\n- 1\n---\n- 2", "\t- 1", "{a: 1, a: 2}",
           "<<: *x", "!!set {a}", "0o9", ": :", "[1, 2", "'"]
-PATHS = ["good.yaml", "bad.yaml", "bin.yaml", "rec.yaml", "empty.yaml", "d", "missing.yaml", "/proc/self/mem", "", ".", "a\x00b", "d/", "good.yaml/x",
+PATHS = ["-", "good.yaml", "bad.yaml", "bin.yaml", "rec.yaml", "empty.yaml", "d", "missing.yaml", "/proc/self/mem", "", ".", "a\x00b", "d/", "good.yaml/x",
          "case.yaml", "/dev/null", "x" * 300]
 STRUCT = ["[1, 2]", "[1, x]", "{k: 1}", "{k: x}", "{class_path: calendar.TextCalendar}", "{class_path: 5}", "{class_path: calendar.Calendar, init_args: 3}",
           "{class_path: calendar.Calendar, init_args: {firstweekday: x}}", "{class_path: calendar.Calendar, init_args: {zz: 1}}",
@@ -166,17 +168,94 @@ def gen_name(rng, shape):
     return rng.choice([o + ".", "." + o, o.replace(".", "..") if "." in o else o + "..k", "", ".", "+", o + "++", o + ".+", "-" + o, o + "=", o.upper(), " " + o])
 
 
+def gen_alias(rng):
+    """a YAML flow value with anchors and aliases built from a grammar: the anchored container, a chain of 0-3 intermediate
+    containers (list or one-key/two-key mapping, same or different shape as the anchored one), then the alias — or plain sharing,
+    two anchors referring to each other, an alias to an enclosing non-root container, several aliases in siblings"""
+    def wrap(kind, inner, rng):
+        if kind == "l":
+            return rng.choice(["[%s]", "[%s]", "[1, %s]", "[%s, %s]"]).replace("%s", inner)
+        key = rng.choice(["a", "a", "b"])
+        return rng.choice(["{%s: %%s}" % key, "{%s: %%s}" % key, "{%s: 1, c: %%s}" % key]).replace("%s", inner)
+
+    r = rng.random()
+    if r < 0.12:   # sharing without a cycle
+        return rng.choice(["[&a [1, 2], *a]", "{p: &a {k: 1}, q: *a}", "[&a x, *a, *a]", "{a: &s [1], b: [*s, *s]}"])
+    if r < 0.20:   # two anchors referring to each other
+        k = rng.choice(["a", "b"])
+        return rng.choice(["&x {%s: &y {%s: *x}, b: *y}" % (k, k), "&x [&y [*x], *y]", "&x [&y {a: *x}, *y]"])
+    root = rng.choice(["l", "l", "d"])
+    depth = rng.choice([0, 0, 1, 1, 1, 2, 3])
+    same = rng.random() < 0.6
+    inner = "*x"
+    for _ in range(depth):
+        kind = root if same else rng.choice(["l", "d"])
+        inner = wrap(kind, inner, rng)
+    val = "&x " + wrap(root, inner, rng)
+    if rng.random() < 0.25:  # the cycle does not go through the root of the value
+        val = rng.choice(["[0, %s]", "{k: %s}", "{class_path: calendar.Calendar, init_args: {firstweekday: %s}}"]) % val
+    return val
+
+
+def gen_deep(rng):
+    """deeply nested flow collections, closed or not: the loader and every recursive walk over the value see the depth"""
+    n = rng.choice([30, 400, 1500, 3000])
+    kind = rng.random()
+    if kind < 0.4:
+        return "[" * n + ("]" * n if rng.random() < 0.6 else "")
+    if kind < 0.7:
+        return "{a: " * n + "1" + ("}" * n if rng.random() < 0.6 else "")
+    if kind < 0.85:
+        return "[{a: " * (n // 2) + "1" + "}]" * (n // 2)
+    return "- " * min(n, 400) + "1"
+
+
 def gen_value(rng):
     r = rng.random()
-    if r < 0.25:
+    if r < 0.22:
         return rng.choice(SCALARS)
-    if r < 0.45:
+    if r < 0.38:
         return rng.choice(BROKEN)
-    if r < 0.62:
+    if r < 0.53:
         return rng.choice(IMPORT_PATHS)
-    if r < 0.78:
+    if r < 0.67:
         return rng.choice(PATHS)
+    if r < 0.77:
+        return gen_alias(rng)
+    if r < 0.80:
+        return gen_deep(rng)
     return rng.choice(STRUCT)
+
+
+SUBCMD_VALUES = ["fit", "test", "zzz", "", "5", "null", "[fit]", "{fit: 1}", "true", "Fit"]
+SUBCMD_BODIES = ["5", "x", "[1]", "null", "{}", "{p: 1}", "{p: x}", "{q: [a]}", "{zz: 1}", "[{p: 1}]", "{p: {k: 1}}", "fit", "{cfg: case.yaml}"]
+
+
+def gen_inline_config(rng, shape):
+    """a whole config as ONE flow mapping (the form a --cfg / APP_CFG value takes when it is not a path)"""
+    items = []
+    for _ in range(rng.choice([1, 1, 2, 3])):
+        if shape == "subcommands" and rng.random() < 0.6:
+            if rng.random() < 0.5:
+                items.append("subcommand: " + rng.choice(SUBCMD_VALUES))
+            else:
+                items.append("%s: %s" % (rng.choice(["fit", "test", "fit", "zzz"]), rng.choice(SUBCMD_BODIES)))
+        else:
+            name = gen_name(rng, shape)
+            v = gen_value(rng)
+            if any(ch in v for ch in "\n#") or v.startswith(("- ", "%", "---")):
+                v = rng.choice(SCALARS)
+            items.append("%s: %s" % (name or "k", v))
+    return "{" + ", ".join(items) + "}"
+
+
+def value_for(rng, shape, name):
+    value = gen_value(rng)
+    if name == "cfg" and rng.random() < 0.7:
+        value = rng.choice(["case.yaml", "case.yaml", gen_inline_config(rng, shape), gen_inline_config(rng, shape), "-"])
+    elif name in ("subcommand", "fit", "test") and rng.random() < 0.7:
+        value = rng.choice(SUBCMD_VALUES if name == "subcommand" else SUBCMD_BODIES)
+    return value
 
 
 def gen_argv(rng, shape):
@@ -187,15 +266,22 @@ def gen_argv(rng, shape):
         if rng.random() < 0.3:
             pre = ["--a=" + rng.choice(SCALARS)]
         argv = pre + [rng.choice(["fit", "test", "fit", "zzz", ""])]
+    prev = None
     for _ in range(n):
         name = gen_name(rng, shape)
+        if prev is not None and rng.random() < 0.3:
+            # the same option again: a later value overrides / refines an earlier one (whole value, sub-key, or append)
+            base = prev.split(".")[0].rstrip("+") or prev
+            name = rng.choice([prev, base, base + "." + rng.choice(SUBKEYS), base + "+"])
         if shape == "subcommands" and "." in name and name.split(".")[0] in ("fit", "test") and rng.random() < 0.8:
             name = name.split(".", 1)[1]
+        prev = name
         r = rng.random()
+        value = value_for(rng, shape, name)
         if r < 0.62:
-            argv.append("--%s=%s" % (name, gen_value(rng)))
+            argv.append("--%s=%s" % (name, value))
         elif r < 0.80:
-            argv += ["--" + name, gen_value(rng)]
+            argv += ["--" + name, value]
         elif r < 0.90:
             argv.append("--" + name)
         elif r < 0.95:
@@ -216,7 +302,7 @@ def gen_text(rng, shape):
     lines = []
     for _ in range(rng.choice([1, 1, 2, 3])):
         name = gen_name(rng, shape)
-        val = gen_value(rng)
+        val = value_for(rng, shape, name)
         if rng.random() < 0.5 and "." in name and not name.startswith(".") and ".." not in name and not name.endswith("."):
             parts = name.split(".")
             lines.append(parts[0] + ":")
@@ -230,7 +316,7 @@ def gen_text(rng, shape):
 
 PYVALS = [1, 0, -3, 2.5, "x", "", None, True, [1, 2], [1, "x"], {"k": 1}, {"k": "x"}, {"$": "object"}, {"$": "nan"}, {"$": "inf"},
           {"$": "ns", "v": {"x": 1}}, {"$": "ns", "v": {"class_path": "calendar.Calendar"}}, {"$": "tuple", "v": [1, 2]}, {"$": "set", "v": [1]},
-          {"$": "bytes", "v": "ab"}, {"$": "items", "v": [[1, 2]]}, {"$": "items", "v": [[None, 1]]}, {"$": "class"}, {"$": "instance"}, {"$": "dc"}, {"$": "big"},
+          {"$": "bytes", "v": "ab"}, {"$": "deep", "n": 3000}, {"$": "deep", "n": 200}, {"$": "items", "v": [[1, 2]]}, {"$": "items", "v": [[None, 1]]}, {"$": "class"}, {"$": "instance"}, {"$": "dc"}, {"$": "big"},
           {"class_path": "calendar.TextCalendar"}, {"class_path": 5}, {"class_path": []}, {"class_path": "calendar.Calendar", "init_args": 3},
           {"class_path": "calendar.Calendar", "init_args": {"firstweekday": "x"}}, {"class_path": "nomod.X"}, {"class_path": "calendar.Nope"},
           {"init_args": {"firstweekday": 1}}, {"x": 1}, {"x": "bad"}, {"zz": 1}, [{"x": "bad"}], [{"zz": 1}], {"k": {"x": "bad"}}, {"inner": {"x": {}}},
@@ -274,7 +360,7 @@ def gen_env(rng, shape):
         name = "APP_" + o.replace(".", "__").upper()
         if rng.random() < 0.1:
             name = rng.choice(["APP_ZZ", "APP_", "APP_A__", name + "__X", name.lower(), "APP_CFG"])
-        env[name] = gen_value(rng)
+        env[name] = value_for(rng, shape, "cfg" if name == "APP_CFG" else o)
     return env
 
 
@@ -329,6 +415,20 @@ def directed():
     add("plain", "parse_string", "it: 1e999\n")
     add("basic", "parse_args", ["--cfg=good.yaml"], dcf="cfg: empty.yaml\n")   # cfg-key-in-config
     add("basic", "parse_args", ["--any.firstweekday=[1, 2]", "--print_config"])  # nested-key-on-any-print-config
+    add("plain", "parse_string", "mc: x\n")                                      # nargs-choices-scalar
+    add("basic", "parse_args", ["--any=" + "[" * 3000 + "]" * 3000])              # deep-nesting-recursion
+    add("basic", "parse_object", {"a": {"$": "deep", "n": 3000}})
+    for x in (False, True):                                                       # closed-stdin-dash
+        D.append({"shape": "basic", "x": x, "entry": "parse_path", "input": "-", "stdin": "none"})
+        D.append({"shape": "basic", "x": x, "entry": "parse_args", "input": ["--cfg=-"], "stdin": "none"})
+    add("subcommands", "parse_args", ["--cfg={subcommand: zzz}"])                 # subcommand-value-not-mapping
+    add("subcommands", "parse_string", "subcommand: fit\nfit: 5\n")
+    add("subcommands", "parse_args", ["--cfg={fit: [1]}", "fit"])
+    add("subcommands", "parse_args", ["--cfg={test: x, fit: {p: 1}}"])
+    add("basic", "parse_args", ["--any={class_path: calendar.Calendar, init_args: {firstweekday: 1}}", "--any={class_path: nomod.X}"])  # any-class-path-override
+    add("basic", "parse_args", ["--print_config=--"])                              # print-config-value-empty
+    add("basic", "parse_args", ["--any=&x [[*x]]"])                                # look-alike indirect cycles (must be rejected cleanly)
+    add("basic", "parse_string", "any: &x {a: {a: *x}}\n")
     # the channels themselves
     add("basic", "parse_args", ["--a=x"])
     add("basic", "parse_args", ["--zz=1"])
@@ -342,6 +442,9 @@ def directed():
     add("basic", "parse_path", "good.yaml")
     add("subcommands", "parse_args", [])
     add("classes", "parse_args", ["--cal=nomod.X"])
+    add("classes", "parse_args", ["--cal=asyncio.windows_events.ProactorEventLoop"])
+    add("classes", "parse_string", "lcal: [c03_needs_extra.Thing]\n")
+    add("classes", "parse_object", {"t": "c03_needs_extra.Thing"})
     add("classes", "parse_args", ["--cal.help=NotAClass"])
     add("classes", "parse_args", ["--cal.help"])
     add("dataclass", "parse_args", ["--dc.x=bad"])
@@ -364,9 +467,11 @@ def gen_case(rng, shape=None, entry=None):
     elif entry == "parse_env":
         c["input"] = gen_env(rng, shape)
     else:
-        c["input"] = rng.choice(PATHS)
-    if rng.random() < 0.5:
+        c["input"] = rng.choice(PATHS + ["case.yaml"] * 6)
+    if rng.random() < 0.5 or "case.yaml" in json.dumps(c["input"]):
         c["files"] = {"case.yaml": gen_text(rng, shape)}
+    if rng.random() < 0.12:
+        c["stdin"] = "none"   # a process started with file descriptor 0 closed: sys.stdin is None
     dcf = gen_dcf(rng, shape)
     if dcf is not None:
         c["dcf"] = dcf
@@ -459,7 +564,56 @@ def attribute(o):
 
 import re as _re
 
-_SELFREF = _re.compile(r"&([A-Za-z0-9_]+)\s*[\[{][^&]*\*\1\b")
+_ANCHOR_USE = _re.compile(r"&([A-Za-z0-9_]+)\b.*\*\1\b", _re.S)
+
+
+def _cyclic(v, parents=()):
+    if not isinstance(v, (dict, list)):
+        return False
+    if any(v is p for p in parents):
+        return True
+    return any(_cyclic(i, parents + (v,)) for i in (v.values() if isinstance(v, dict) else v))
+
+
+def _text_selfref(t):
+    if not _ANCHOR_USE.search(t):
+        return False
+    import yaml
+    for cand in (t, t.split("=", 1)[-1]):
+        try:
+            return _cyclic(yaml.safe_load(cand))
+        except RecursionError:
+            return True
+        except Exception:  # noqa: not loadable as a whole: judge the text (an anchor that is used again after its definition)
+            continue
+    return True
+
+
+def _depth(t):
+    d = m = 0
+    for ch in t:
+        if ch in "[{":
+            d += 1
+            m = max(m, d)
+        elif ch in "]}":
+            d = max(0, d - 1)
+    return m
+
+
+def deep(case):
+    """does the input hold a value nested more than 150 levels deep?"""
+    def walk(v):
+        if isinstance(v, str):
+            return _depth(v) > 150 or v.count("- ") > 150
+        if isinstance(v, list):
+            return any(walk(i) for i in v)
+        if isinstance(v, dict):
+            if v.get("$") == "deep":
+                return v["n"] > 150
+            return any(walk(k) or walk(i) for k, i in v.items())
+        return False
+
+    return walk(case["input"]) or walk(case.get("files") or {}) or walk(case.get("dcf") or "")
 
 
 def selfref(case):
@@ -478,7 +632,7 @@ def selfref(case):
     texts = list(strings(case["input"])) + list(strings(case.get("files") or {})) + [case.get("dcf") or ""]
     if any(t in ("rec.yaml",) or t.endswith("=rec.yaml") for t in texts):
         return True
-    return any(_SELFREF.search(t) for t in texts)
+    return any(_text_selfref(t) for t in texts)
 
 
 def g_obs(o):
@@ -494,15 +648,15 @@ def g_obs(o):
 def term(case, obs):
     m = ir_meta()
     cid, sites = attribute(obs)
-    return "{| c_x := %s; c_entry := %s; c_obs := %s; c_cls := %s; c_sites := %s; c_selfref := %s |}" % (
+    return "{| c_x := %s; c_entry := %s; c_obs := %s; c_cls := %s; c_sites := %s; c_selfref := %s; c_deep := %s |}" % (
         g_bool(case["x"]), g_N(m["entries"][case["entry"]]), g_obs(obs),
-        g_opt(None if cid is None else g_N(cid)), g_list([g_N(i) for i in sites[:12]], "N"), g_bool(selfref(case)))
+        g_opt(None if cid is None else g_N(cid)), g_list([g_N(i) for i in sites[:12]], "N"), g_bool(selfref(case)), g_bool(deep(case)))
 
 
 def nontrivial_key(case, obs):
     if obs["k"] == "ret":
         return None
-    return json.dumps([case["shape"], case["x"], case["entry"], case["input"], case.get("dcf"), case.get("files")], sort_keys=True)
+    return json.dumps([case["shape"], case["x"], case["entry"], case["input"], case.get("dcf"), case.get("files"), case.get("stdin")], sort_keys=True)
 
 
 def category(case, obs):
@@ -519,6 +673,8 @@ def describe(case, obs):
     m = ir_meta()
     cid, sites = attribute(obs)
     d = {"parser_shape": case["shape"], "exit_on_error": case["x"], "method": case["entry"], "input": case["input"]}
+    if case.get("stdin") == "none":
+        d["stdin"] = "closed (sys.stdin is None)"
     if case.get("dcf") is not None:
         d["default_config_file_content"] = case["dcf"]
     if case.get("files"):
@@ -539,6 +695,8 @@ def shrink(case):
     inp = case["input"]
     if case.get("dcf") is not None:
         yield {k: v for k, v in case.items() if k != "dcf"}
+    if case.get("stdin"):
+        yield {k: v for k, v in case.items() if k != "stdin"}
     if case.get("files"):
         yield {k: v for k, v in case.items() if k != "files"}
     if isinstance(inp, list):
